@@ -1,10 +1,13 @@
 #!/venv/bin/python
 """Bounded check for C20: data and values flow between csvpaths as declared (oracle = the property statement).
 
- scope A  chains of 2..3 filter csvpaths with source-mode: preceding on every suffix (all 2^k-1 suffix choices) x 3 files x serial run methods:
-          a preceding member reads exactly the lines its predecessor collected and its manifest names that data.csv as actual input.
- scope B  variable references $grp.variables.v[.key] and header references $grp.headers.h after 1..3 runs of the producing group whose
-          final values include 0, '', False and tracked values; results reference as a file name replays the member's data.csv.
+ scope A  chains of 2..3 filter csvpaths with source-mode: preceding on every suffix (all 2^k-1 suffix choices) x 3 files x serial run methods
+          x file dialect {comma; semicolon-delimited read by CsvPaths(delimiter=';') (every 4th chain)}:
+          a preceding member reads exactly the lines its predecessor collected, its manifest names that data.csv as actual input, and the
+          lines each Result hands back are the lines in its data.csv.
+ scope B  variable references $grp.variables.v[.key] and header references $grp.headers.h (cells with and without surrounding blanks, an empty
+          cell) after 1..3 runs of the producing group whose final values include 0, '', False and tracked values; a results reference used as
+          a file name -- by ':last', ':first' and by the exact run directory name -- replays the member's data.csv.
 """
 import itertools, os, sys
 sys.path.insert(0, os.path.dirname(os.path.abspath(__file__)))
@@ -37,27 +40,28 @@ def main():
     if not b.thorough():
         chains = chains[::3]
         b.exhaustive = False
-    items = [("chain", c, f, m) for c in chains for f in FILES for m in ("collect_paths",)] + \
-            [("ref", k, None, None) for k in range(6)]
+    items = [("chain", c, f, m, ",") for c in chains for f in FILES for m in ("collect_paths",)] + \
+            [("chain", c, "f1", "collect_paths", ";") for c in chains[::4]] + \
+            [("ref", k, None, None, None) for k in range(6)]
 
     def work(b, item):
         with b.fresh_dir():
             (work_chain if item[0] == "chain" else work_ref)(b, item)
 
     def work_chain(b, item):
-        _, chain, fkey, method = item
+        _, chain, fkey, method, delim = item
         n = len(chain)
-        fn = os.path.abspath(mlib.write_rows(f"{fkey}.csv", FILES[fkey]))
+        fn = os.path.abspath(mlib.write_rows(f"{fkey}.csv", FILES[fkey], delimiter=delim))
         # source-mode preceding on every non-empty suffix of the chain starting at position >= 1
         for start in range(1, n):
-            key = f"chain={[FILTERS[i] for i in chain]} file={fkey} method={method} preceding_from={start}"
+            key = f"chain={[FILTERS[i] for i in chain]} file={fkey} method={method} preceding_from={start}" + ("" if delim == "," else f" delimiter={delim!r}")
             b.case(key)
             group = []
             for pos, fi in enumerate(chain):
                 mode = " source-mode: preceding" if pos >= start else ""
                 group.append(f"~ id: m{pos}{mode} ~ $[*][ {FILTERS[fi]} ]")
             with b.quiet():
-                paths = mlib.new_paths()
+                paths = mlib.new_paths() if delim == "," else mlib.new_paths(delimiter=delim)
                 paths.file_manager.add_named_file(name=fkey, path=fn)
                 paths.paths_manager.add_named_paths(name="chain", paths=group)
                 out, exc = mlib.run(paths, method, "chain", fkey)
@@ -85,7 +89,8 @@ def main():
                     src_file = os.path.abspath(mlib.write_rows(f"in_{pos}.csv", prev))
                     expected_in[pos] = prev
                 with b.quiet():
-                    p = CsvPath()
+                    # (the original file is read in its own dialect; a predecessor's data is a plain comma file)
+                    p = CsvPath() if (delim == "," or pos >= start) else CsvPath(delimiter=delim)
                     expected_out[pos] = [list(x) for x in p.parse(f"${src_file}[*][ {FILTERS[fi]} ]").collect()]
             if not ok:
                 continue
@@ -101,6 +106,10 @@ def main():
                 got = mlib.read_csv(dp) if os.path.exists(dp) else []
                 if got != expected_out[pos]:
                     b.fail("preceding_member_reads_exactly_its_predecessors_lines", f"{key} member=m{pos}", "collected lines", got, expected_out[pos])
+                with b.quiet():
+                    back = [list(x) for x in r.lines.next()] if hasattr(r.lines, "next") else [list(x) for x in (r.lines or [])]
+                if back != got:
+                    b.fail("result_hands_back_the_lines_in_its_data_csv", f"{key} member=m{pos}", "Result.lines", back, got)
                 mm = mlib.jload(os.path.join(d, "manifest.json"))
                 if pos >= start:
                     want_in = os.path.join(results[pos - 1].run_dir, results[pos - 1].identity_or_index, "data.csv")
@@ -111,12 +120,36 @@ def main():
                     if os.path.normpath(str(mm.get("actual_data_file"))) != os.path.normpath(stored):
                         b.fail("manifest_names_the_actual_input", f"{key} member=m{pos}", "actual_data_file", mm.get("actual_data_file"), stored)
 
+    def replays(paths, key):
+        """a results reference used as a file name replays exactly the referenced member's data.csv"""
+        srcs = paths.results_manager.get_named_results("stock")[0]
+        src_data = os.path.join(srcs.run_dir, srcs.identity_or_index, "data.csv")
+        run_name = os.path.basename(srcs.run_dir)
+        first_name = sorted(os.listdir(os.path.dirname(srcs.run_dir)))[0]
+        first_data = os.path.join(os.path.dirname(srcs.run_dir), first_name, srcs.identity_or_index, "data.csv")
+        for form, ref, ref_data in ((":last", "$stock.results.2:last.p", src_data), (":first", "$stock.results.2:first.p", first_data),
+                                    ("exact run directory name", f"$stock.results.{run_name}.p", src_data)):
+            with b.quiet():
+                paths.paths_manager.add_named_paths(name="replay", paths=['~ id: r ~ $[*][ yes() ]'])
+                out3, exc3 = mlib.run(paths, "collect_paths", "replay", ref)
+            if exc3 is not None:
+                b.fail("results_reference_replays_data_csv", f"{key} reference by {form}", f"{type(exc3).__name__}: {str(exc3)[:200]}")
+                continue
+            rs = paths.results_manager.get_named_results("replay")[0]
+            rd = os.path.join(rs.run_dir, rs.identity_or_index, "data.csv")
+            got = mlib.read_csv(rd) if os.path.exists(rd) else []
+            want = mlib.read_csv(ref_data) if os.path.exists(ref_data) else []
+            if got != want:
+                b.fail("results_reference_replays_data_csv", f"{key} reference by {form}", "lines replayed", got, want)
+
     def work_ref(b, item):
         k = item[1]
         # producing group: leaves variables with falsy and tracked final values; run 1..3 times over files of different length
+        pad = " fig " if k >= 3 else "fig"
         datas = [[["sku", "name"], ["1", "apple"], ["2", "pear"], ["3", "fig"]],
                  [["sku", "name"], ["1", "apple"], ["2", "pear"], ["3", "fig"], ["4", "kiwi"]],
                  [["sku", "name"], ["7", "plum"]]]
+        datas = [[[c if c != "fig" else pad for c in row] for row in rows] + ([["5", ""]] if k % 2 else []) for rows in datas]
         producer = ['~ id: p ~ $[*][ @remaining = subtract(4, line_number()) @lastname = #name tally(#name) @flag = equals(line_number(), 99) ]']
         runs = (k % 3) + 1
         key = f"reference case {k}: producer run {runs} time(s)"
@@ -127,10 +160,13 @@ def main():
                 paths.file_manager.add_named_file(name=f"d{i}", path=os.path.abspath(mlib.write_rows(f"d{i}.csv", rows)))
             paths.paths_manager.add_named_paths(name="stock", paths=producer)
             consumer = ['~ id: c ~ $[*][ @seen = $stock.variables.remaining @name = $stock.variables.lastname @flag = $stock.variables.flag '
-                        '@t = $stock.variables.tally_name.apple ]']
+                        '@t = $stock.variables.tally_name.apple @names = $stock.headers.name ]']
             paths.paths_manager.add_named_paths(name="report", paths=consumer)
             for i in range(runs):
                 paths.collect_paths(filename=f"d{i}", pathsname="stock")
+                if i < runs - 1:
+                    # the same references are used again after every further run of the group, on the same CsvPaths instance (they must follow the runs)
+                    replays(paths, f"{key} (after producer run {i + 1} of {runs})")
             final = dict(paths.results_manager.get_variables("stock"))
             out, exc = mlib.run(paths, "collect_paths", "report", "d0")
         if exc is not None:
@@ -146,21 +182,16 @@ def main():
         want_t = (final.get("tally_name") or {}).get("apple")
         if v.get("t") != want_t:
             b.fail("tracked_variable_reference", key, "$stock.variables.tally_name.apple", [v.get("t", "<unset>"), errs[:1]], want_t)
-        # results reference used as a file name replays exactly the referenced member's data.csv
-        with b.quiet():
-            paths2 = paths
-            paths2.paths_manager.add_named_paths(name="replay", paths=['~ id: r ~ $[*][ yes() ]'])
-            out3, exc3 = mlib.run(paths2, "collect_paths", "replay", "$stock.results.2:last.p")
-        if exc3 is not None:
-            b.fail("results_reference_replays_data_csv", key, f"{type(exc3).__name__}: {exc3}")
-            return
-        rs = paths2.results_manager.get_named_results("replay")[0]
-        srcs = paths2.results_manager.get_named_results("stock")[0]
+        # a header reference is the list of values collected under that header by the group's most recent run
+        srcs = paths.results_manager.get_named_results("stock")[0]
         src_data = os.path.join(srcs.run_dir, srcs.identity_or_index, "data.csv")
-        got = mlib.read_csv(os.path.join(rs.run_dir, rs.identity_or_index, "data.csv")) if os.path.exists(os.path.join(rs.run_dir, rs.identity_or_index, "data.csv")) else []
-        want = mlib.read_csv(src_data) if os.path.exists(src_data) else []
-        if got != want:
-            b.fail("results_reference_replays_data_csv", key, "lines replayed", got, want)
+        collected = mlib.read_csv(src_data) if os.path.exists(src_data) else []
+        want_names = [row[1] for row in collected if len(row) > 1]
+        if v.get("names") != want_names:
+            b.fail("header_reference_is_the_list_of_values_collected_under_the_header",
+                   {"case": key, "padded_cell": pad != "fig", "empty_cell": bool(k % 2), "shape": f"padded={pad != 'fig'} empty={bool(k % 2)}"},
+                   "$stock.headers.name", [v.get("names", "<unset>"), errs[:1]], want_names)
+        replays(paths, key)
 
     b.fan_out(work, items)
     b.sample({"example": "chain=[#b == \"x\", yes()] with source-mode: preceding on the second member; $stock.variables.remaining after 2 runs"})
